@@ -1,0 +1,15 @@
+//go:build verif
+
+package websocket
+
+// Exports for the external verification harness (/verif). This file only
+// exists for the compiler when the "verif" build tag is set.
+
+// VerifMaskGo is the portable masking implementation.
+func VerifMaskGo(b []byte, key uint32) uint32 { return maskGo(b, key) }
+
+// VerifMask is the masking function the read and write paths call.
+func VerifMask(b []byte, key uint32) uint32 { return mask(b, key) }
+
+// VerifMaskAsm is the assembly implementation where one exists, else nil.
+var VerifMaskAsm func(b []byte, key uint32) uint32
